@@ -63,6 +63,18 @@ NOTES = {
  "C16-D": "missed at first; C16's answers gained a per-request transport timeout that matches context.DeadlineExceeded",
  "C18-D": "missed at first; C18 now also places windows around the wall clock",
  "C19-C": "missed at first; C19's alphabet gained alias spellings of a configured log id",
+ "C01-I": "missed at first; ref/pki gained a P-256 log key whose public coordinate has a leading zero octet, used by C01 on reduced shapes",
+ "C03-J": "missed at first; C03's OID neighbours gained the CT arcs under another first arc",
+ "C04-J": "missed at first; C04's JSON inputs gained string-escape spellings of base64 characters",
+ "C10-I": "missed at first; C10 gained strings under tags numbered like universal string types",
+ "C10-J": "missed at first; C10's strings gained non-ASCII code points whose low bytes are printable",
+ "C11-I": "missed at first; C11's EC private keys gained zero-padded scalars",
+ "C14-I": "missed at first; C14 gained the bound-2 scenario in which a second writer overtakes a failing first writer",
+ "C16-I": "missed at first; C16 requires a continuous scan not to end by itself",
+ "C16-J": "missed at first; C16's get-sth answers gained HTTP 429 / 404",
+ "C17-J": "C18 missed it (C17 caught it once the proxy pass existed); C17 gained the proxy pass over log-list update sequences",
+ "C18-J": "missed at first; C18 writes log-list interval bounds with zone offsets at year boundaries",
+ "C20-I": "C20's answers gained a server-side Canceled (from the seeder's description, before the first verification run)",
 }
 rows = []
 for f in sorted(glob.glob("/verif/seeded/*/meta.json")):
